@@ -80,8 +80,15 @@ func (p *parser) Next() *token {
 	return p.Token
 }
 
+// maxDepth bounds the nesting of expressions and blocks: parser, compiler and tree printer recurse once
+// per level, and a Go stack overflow cannot be recovered
+const maxDepth = 10000
+
 func (p *parser) Expression(rbp int, mask ...string) *token {
 	p.Depth++
+	if p.Depth > maxDepth {
+		panicf("nested too deeply")
+	}
 	tmp := p.mask
 	p.mask = mask
 	tok := p.doExpression(rbp)
